@@ -5,6 +5,7 @@ import z3
 
 import mir
 import mprop
+from gating import must
 from kprop import run_kani_part
 
 SPEC = {
@@ -54,21 +55,43 @@ def run(res, tier):
         if len(push) > 1:
             fn = mprop.write_cex(res, "update_two_pushes_%d" % i, p, E, "two deltas pushed by one update")
             res.violation("mir:update-pushes-twice", "SharedHistory::update pushes more than one delta", fn)
-        # delta option = result of and_then(closure calling PayloadDelta::construct)
-        if andthen:
-            leaf = andthen[0].dest.get(())
-            d = mir.peek(E, p.mem, (("o", leaf.id), "disc")) if isinstance(leaf, mir.Opq) else andthen[0].dest.get(("disc",))
-            if d is not None:
-                if push and E.feasible(p.cond, d == 0):
-                    fn = mprop.write_cex(res, "push_without_delta_%d" % i, p, E, "push_delta although no delta was constructed")
-                    res.violation("mir:push-without-change", "serial advances although the data set did not change", fn)
-                if not push and E.feasible(p.cond, d == 1):
-                    fn = mprop.write_cex(res, "delta_not_pushed_%d" % i, p, E, "a constructed delta is not pushed")
-                    res.violation("mir:change-not-pushed", "data set changed but the serial does not advance", fn)
-                if ret is not None and mir.is_z(ret):
-                    if push and E.feasible(p.cond, z3.Not(ret)):
-                        fn = mprop.write_cex(res, "changed_but_false_%d" % i, p, E, "update returns false although a delta was pushed")
-                        res.violation("mir:update-flag-wrong", "update() reports no change although it pushed a delta", fn)
+        # the engine inlines current.as_ref().and_then(|c| PayloadDelta::construct(c, ..)): the path shows whether a
+        # current snapshot existed, whether construct ran and what it returned
+        from gating import disc_of
+        cur = [e for e in p.events if e.kind == "call" and re.search(r"PayloadHistory::current$", e.name)]
+        con = [e for e in p.events if e.kind == "call" and re.search(r"PayloadDelta::construct$", e.name)]
+        if not cur:
+            res.inconclusive.append("SharedHistory::update: a path does not read the current snapshot")
+            continue
+        d_cur = disc_of(E, p, cur[-1])
+        has_cur = d_cur is not None and must(E, p, d_cur == 1)
+        no_cur = d_cur is not None and must(E, p, d_cur == 0)
+        if not (has_cur or no_cur):
+            # the presence of a current snapshot does not decide the path: the decision is conditioned on something else
+            pass
+        if not con and not no_cur:
+            if not any(v["key"] == "mir:change-decision-conditioned" for v in res.violations):
+                fn = mprop.write_cex(res, "delta_decision_conditioned_%d" % i, p, E,
+                                     "a current snapshot may exist on this path, yet PayloadDelta::construct is not evaluated: a "
+                                     "changed data set gets no delta and no new serial")
+                res.violation("mir:change-decision-conditioned",
+                              "SharedHistory::update does not compute the delta for every update that has a current snapshot: "
+                              "data can change without the serial advancing", fn)
+            continue
+        d_con = disc_of(E, p, con[-1]) if con else None
+        changed = con and d_con is not None and must(E, p, d_con == 1)
+        unchanged = (not con) or (d_con is not None and must(E, p, d_con == 0))
+        if changed and not push:
+            fn = mprop.write_cex(res, "delta_not_pushed_%d" % i, p, E, "a constructed delta is not pushed")
+            res.violation("mir:change-not-pushed", "data set changed but the serial does not advance", fn)
+        if unchanged and push:
+            fn = mprop.write_cex(res, "push_without_delta_%d" % i, p, E, "push_delta although no delta was constructed")
+            res.violation("mir:push-without-change", "serial advances although the data set did not change", fn)
+        if con and not (changed or unchanged):
+            res.inconclusive.append("SharedHistory::update: construct's outcome does not decide the path")
+        if ret is not None and mir.is_z(ret) and push and E.feasible(p.cond, z3.Not(ret)):
+            fn = mprop.write_cex(res, "changed_but_false_%d" % i, p, E, "update returns false although a delta was pushed")
+            res.violation("mir:update-flag-wrong", "update() reports no change although it pushed a delta", fn)
         if len(res.samples) < 12:
             res.samples.append({"update_path": [e.name.split("::")[-1] for e in p.events if e.kind == "call"
                                                 and re.search(r"and_then$|push_delta$|into_snapshot$|current$|serial$", e.name)],
